@@ -67,6 +67,10 @@ func (c *Codec) decodeQuery(queryString url.Values, msg protoreflect.Message) er
 	}
 
 	for key, values := range queryString {
+		if len(values) == 0 {
+			// url.Values allows a key with an empty list, nothing to set
+			continue
+		}
 		prop, err := propertyAtPath(root, key)
 		if err != nil {
 			return err
